@@ -8,6 +8,7 @@ from . import _rows
 
 PROP = "C09"
 LEVEL = "exploration"
+ANCHORS = ["_get_warns", "_solv_get_warns", "_get_limits", "_check_limits", "System.limits", "_filt_lim"]  # functions whose reached lines are reported in the evidence
 RULE = (
     "two-pass cases: a random SystemSpec is solved once without limits, then every limit is chosen relative to "
     "the value the component actually reports - well inside, well outside, one ulp either side of the value, "
